@@ -15,7 +15,10 @@
 #include <cstring>
 #include <map>
 #include <string>
+#include <pubkey.h>
 typedef std::vector<unsigned char> sbytes; typedef std::vector<sbytes> sstack;
+#define SPEC_WITH_SIG
+#define VERIF_ORACLE_N 24
 #include "../harness/spec_step.h"
 
 static std::map<std::string, std::string> A;
@@ -28,10 +31,22 @@ static void show(const char* n, const sstack& s) { printf("%s[%zu]:", n, s.size(
 class OracleChecker : public BaseSignatureChecker {
 public:
     bool lt, sq; mutable int lt_calls = 0, sq_calls = 0;
+    // signature verdicts: the i-th ECDSA verification requested gets ecdsa[i]; Schnorr verification gets schnorr_ok / schnorr_err
+    bool ecdsa[VERIF_ORACLE_N] = {false}; bool schnorr_ok = false; int schnorr_err = (int)SCRIPT_ERR_SCHNORR_SIG;
+    mutable int ecdsa_calls = 0, schnorr_calls = 0; mutable sbytes esig[VERIF_ORACLE_N], ekey[VERIF_ORACLE_N], ssig, skey;
     OracleChecker(bool a, bool b) : lt(a), sq(b) {}
     bool CheckLockTime(const CScriptNum&) const override { ++lt_calls; return lt; }
     bool CheckSequence(const CScriptNum&) const override { ++sq_calls; return sq; }
+    bool CheckECDSASignature(const std::vector<unsigned char>& sig, const std::vector<unsigned char>& key, const CScript&, SigVersion) const override {
+        int k = ecdsa_calls++; if (k >= VERIF_ORACLE_N) return false; esig[k] = sig; ekey[k] = key; return ecdsa[k];
+    }
+    bool CheckSchnorrSignature(Span<const unsigned char> sig, Span<const unsigned char> key, SigVersion, ScriptExecutionData&, ScriptError* serror = nullptr) const override {
+        ++schnorr_calls; ssig.assign(sig.begin(), sig.end()); skey.assign(key.begin(), key.end());
+        if (!schnorr_ok && serror) *serror = (ScriptError)schnorr_err;
+        return schnorr_ok;
+    }
 };
+static std::vector<int> ints(const std::string& s) { std::vector<int> r; size_t p = 0; if (s.empty()) return r; while (true) { size_t c = s.find(',', p); r.push_back(atoi(s.substr(p, c == std::string::npos ? std::string::npos : c - p).c_str())); if (c == std::string::npos) break; p = c + 1; } return r; }
 
 int main(int argc, char** argv) {
     for (int i = 1; i < argc; ++i) { const char* e = strchr(argv[i], '='); if (e) A[std::string(argv[i], e - argv[i])] = e + 1; }
@@ -55,12 +70,46 @@ int main(int argc, char** argv) {
         }
     }
     sstack st(base, sbytes(1, 0x01)); { sstack w = items(arg("items")); st.insert(st.end(), w.begin(), w.end()); }
+    // ---- signature opcodes: oracle verdicts come from the counterexample; verdicts that are computed by real code in the real
+    // interpreter (low-S test, FindAndDelete) are REALISED: the script gets the prescribed number of occurrences of each signature
+    // push in front of the operation, and the low-S verdict is taken from the real CPubKey::CheckLowS for the given bytes
+    const bool sigop = getop_ok && ((op >= 0xac && op <= 0xaf) || op == 0xba);
+    size_t prefix_len = 0; bool oracle_differs = false;
+    SpecSigOracles orc; SpecSigUse use; std::vector<int> ev = ints(arg("ecdsa")), fv = ints(arg("fad"));
+    for (int i = 0; i < VERIF_ORACLE_N; ++i) { orc.ecdsa_ok[i] = i < (int)ev.size() && ev[i]; orc.fad_result[i] = i < (int)fv.size() ? fv[i] : 0; }
+    orc.schnorr_ok = num("schnorr_ok") != 0; orc.schnorr_err = (int)num("schnorr_err", (int)SCRIPT_ERR_SCHNORR_SIG); orc.lows_ok = num("lows") != 0;
+    orc.mock_on = num("mock") != 0; orc.mock_sig = unhex(arg("msig")); orc.mock_key = unhex(arg("mkey"));
+    use.ecdsa_calls = use.schnorr_calls = use.fad_calls = 0; use.weight = num("weight");
+    ECCVerifyHandle ecc_handle;
+    if (sigop) {
+        // which stack items are the signatures (single-signature opcodes: depth 2 resp. 3; multisig: below the signature count)
+        std::vector<sbytes> sigs;
+        if (op == 0xac || op == 0xad) { if (st.size() >= 2) sigs.push_back(st[st.size() - 2]); }
+        else if (op == 0xba) { if (st.size() >= 3) sigs.push_back(st[st.size() - 3]); }
+        else if (!st.empty() && st.back().size() <= 1) {
+            size_t nk = st.back().empty() ? 0 : st.back()[0];
+            if (nk <= 20 && st.size() >= nk + 2 && st[st.size() - 2 - nk].size() <= 1) { size_t ns = st[st.size() - 2 - nk].empty() ? 0 : st[st.size() - 2 - nk][0]; if (ns <= nk && st.size() >= nk + ns + 2) for (size_t i = 0; i < ns; ++i) sigs.push_back(st[st.size() - 3 - nk - i]); }
+        }
+        CScript pre;
+        if (sv == SSV_BASE) for (size_t i = 0; i < sigs.size(); ++i) for (int f = 0; f < orc.fad_result[i] && f < 3; ++f) pre << sigs[i];
+        scr.insert(scr.begin(), pre.begin(), pre.end()); prefix_len = pre.size();
+        bool any = false, real_low = true;
+        for (auto& sg : sigs) if (spec_valid_der(sg)) { bool l = CPubKey::CheckLowS(sbytes(sg.begin(), sg.end() - 1)); if (any && l != real_low) { printf("cannot rebuild: the signatures differ in their low-S verdict (the rules model one verdict per step)\n"); return 3; } real_low = l; any = true; }
+        if (any && real_low != orc.lows_ok) { orc.lows_ok = real_low; oracle_differs = true; }
+    }
     sstack alt(abase, sbytes(1, 0x01)); { sstack w = items(arg("aitems")); alt.insert(alt.end(), w.begin(), w.end()); }
     OracleChecker chk(num("lt") != 0, num("sq") != 0);
     ScriptError err = SCRIPT_ERR_UNKNOWN_ERROR;
     sstack real = st;
     ScriptExecutionEnvironment env(real, scr, flags, chk);
     env.sigversion = sv == SSV_BASE ? SigVersion::BASE : sv == SSV_WITNESS_V0 ? SigVersion::WITNESS_V0 : SigVersion::TAPSCRIPT;
+    if (sigop) {
+        for (int i = 0; i < VERIF_ORACLE_N; ++i) chk.ecdsa[i] = orc.ecdsa_ok[i];
+        chk.schnorr_ok = orc.schnorr_ok; chk.schnorr_err = orc.schnorr_err;
+        if (orc.mock_on) { env.pretend_valid_map[orc.mock_sig] = orc.mock_key; env.pretend_valid_pubkeys.insert(orc.mock_key); }
+        env.execdata.m_validation_weight_left = use.weight; env.execdata.m_validation_weight_left_init = true;
+        if (sv == 2) env.sigversion = SigVersion::TAPROOT;
+    }
     env.nOpCount = (int)num("nop"); env.altstack = alt; env.allow_disabled_opcodes = num("ad") != 0; env.opcode_pos = (uint32_t)num("pos"); env.serror = &err;
     for (long long i = 0; i < cs_size; ++i) env.vfExec.push_back(!(cs_ff >= 0 && cs_ff != 0xffffffffLL && i >= cs_ff));
     // specification
@@ -79,9 +128,10 @@ int main(int argc, char** argv) {
     }
     s.stack = st; s.alt = alt; s.cs_size = (uint32_t)cs_size; s.cs_first_false = (cs_ff < 0 || cs_ff >= cs_size) ? SPEC_NO_FALSE : (uint32_t)cs_ff; s.nOpCount = env.nOpCount;
     s.codesep_moved = false; s.codesep_pos = env.execdata.m_codeseparator_pos; s.locktime_calls = s.sequence_calls = 0; s.locktime_arg = s.sequence_arg = 0; s.hash_calls = 0; s.hash_algo = 0;
+    g_spec_orc = &orc; g_spec_use = &use;
     SpecOut o = spec_step(c, s);
     // the real code
-    CScript::const_iterator pc = env.script.begin();
+    CScript::const_iterator pc = env.script.begin() + prefix_len;
     bool ok = false; int exc = 0; std::string what;
     try { ok = StepScript(env, pc, nullptr); }
     catch (const scriptnum_error& e) { what = e.what(); exc = strstr(e.what(), "overflow") ? SPEC_VT_SCRIPTNUM_OVERFLOW : SPEC_VT_SCRIPTNUM_NONMINIMAL; }
@@ -101,9 +151,16 @@ int main(int argc, char** argv) {
             if (env.vfExec.size() != s.cs_size || env.vfExec.all_true() != (s.cs_first_false == SPEC_NO_FALSE)) { bad = true; printf("conditional state differs\n"); }
             if (env.nOpCount != s.nOpCount) { bad = true; printf("op count %d vs %d\n", env.nOpCount, s.nOpCount); }
             if (chk.lt_calls != s.locktime_calls || chk.sq_calls != s.sequence_calls) { bad = true; printf("lock-time oracle use differs\n"); }
+            if (sigop) {
+                if (env.sigversion == SigVersion::TAPSCRIPT && env.execdata.m_validation_weight_left != use.weight) { bad = true; printf("signature budget %lld vs %lld\n", (long long)env.execdata.m_validation_weight_left, (long long)use.weight); }
+                if (chk.schnorr_calls != use.schnorr_calls || (use.schnorr_calls && (chk.ssig != use.schnorr_sig || chk.skey != use.schnorr_key))) { bad = true; printf("Schnorr verification requests differ\n"); }
+                if (chk.ecdsa_calls < use.ecdsa_calls) { bad = true; printf("fewer ECDSA verifications requested than prescribed\n"); }
+                for (int i = 0; i < use.ecdsa_calls && i < chk.ecdsa_calls && i < VERIF_ORACLE_N; ++i) if (chk.esig[i] != use.ecdsa_sig[i] || chk.ekey[i] != use.ecdsa_key[i]) { bad = true; printf("ECDSA verification %d is requested for another signature/key pair than prescribed\n", i); }
+            }
         }
     }
     printf(bad ? "REPRODUCED: the real interpreter deviates from the rules on this input\n" : "not reproduced: the real interpreter follows the rules on this input\n");
+    if (!bad && oracle_differs) { printf("(the verifier's low-S verdict is not the one the real test gives for these bytes; with the real verdict the input does not show the failure: cannot rebuild)\n"); return 3; }
     if (!bad && num("reduced")) { printf("(the verifier's input was reduced to allocatable sizes; the reduced input does not show the failure: cannot rebuild)\n"); return 3; }
     return bad ? 1 : 0;
 }
